@@ -122,7 +122,7 @@ def element_unit():
     open spec fn obeys_eq_spec() -> bool { true }
     open spec fn eq_spec(&self, other: &Element) -> bool { spec_eq(mrepr(*self), mrepr(*other)) }
 }"""
-    items.append(Item(EL, "impl PartialEq for Element", [Fn("eq", props=("C08", "C12"), preamble=BUM, attrs=R12)], pre=pre))
+    items.append(Item(EL, "impl PartialEq for Element", [Fn("eq", props=("C08", "C12", "C01"), preamble=BUM, attrs=R12)], pre=pre))
     items += ops_items()
     u = Unit(name="min_element",
              preludes=base_preludes() + [("subtle.rs", None), ("curve_spec.rs", None), ("min_spec.rs", None), ("ladder_lemmas.rs", None)],
